@@ -13,6 +13,30 @@ CHECKS = {
     note="Trusts TLC, the CommunityModules Json module and the projection function harness/props/c10.py:observe "
          "(public read API only). Keys/values are short strings; histories are exhaustive to depth 3 (4 in thorough, reduced op set), sampled beyond.",
     technique="TLA+ reference model + TLC bounded model checking; spec->code history replay; code->spec trace validation"),
+ "C11": dict(
+    text="TLC explores spec/MC_Heap.tla (containers as heap objects: build a nested container, Copy with one of 9 "
+         "mechanisms - .copy(), copy.copy, copy.deepcopy, pickle protocols 0-5 -, mutate either side), checks CopyEqual, "
+         "OrigIntact, ClassesKept and Independent on the model and prints every behaviour with the expected tree "
+         "projection of both roots after each step; each behaviour is replayed on real containers of all four classes.",
+    design_ref="DESIGN.md section 3 C11",
+    note="Shallow mechanisms are only mutated at top level (whether nested objects are shared is left free); trees up to 3 objects x 2 items, 1-2 mutations; trusts harness/heapops.py:project.",
+    technique="TLA+ heap model + TLC bounded model checking; spec->code behaviour replay"),
+ "C13": dict(
+    text="TLC enumerates (module tree, dump/mutate script) cases from spec/MC_Dump.tla and model-checks the implementation-shaped "
+         "PDS3 group->object conversion against DumpPure (pre-fix variant: counterexample; repaired variant: holds). Every script is run "
+         "on real modules with the four encoders (via pvl.dumps and encoder.encode); every event (pre/post tree projection, text digest, "
+         "exception) is judged by TLC with spec/Trace_Dump.tla.",
+    design_ref="DESIGN.md section 3 C13",
+    note="Text equality is compared through 64-bit digests; repeatability is required between dumps with no mutation in between; the PDS3 relabel is permitted, not required.",
+    technique="TLA+ heap model + TLC; code->spec trace validation of dump sessions"),
+ "C16": dict(
+    text="TLC enumerates every call history of length 3 (4 in thorough) over an 8-input pool from spec/Session.tla and model-checks the "
+         "implementation-shaped errors list (leaking variant: counterexample; resetting variant: holds). Each history is issued to one "
+         "long-lived instance of 27 parser/encoder/decoder kinds (classes plus the module-level instances of pvl_validate and "
+         "pvl_translate) next to fresh instances; TLC judges every call with spec/Trace_Session.tla.",
+    design_ref="DESIGN.md section 3 C16",
+    note="Outcomes are compared as digests of (projected module, errors, exception type/message/position); object addresses in messages are masked.",
+    technique="TLA+ session model + TLC; code->spec trace validation of call histories"),
 }
 PENDING_REASON = "check not built yet in this round (planned, see DESIGN.md section 6); not claimed until it runs"
 ALL = ["C%02d" % i for i in range(1, 21)]
